@@ -1036,7 +1036,7 @@ func (h *hist3) burst(t testingT, src, sched *choice.Source) []Finding {
 		}
 	}
 	hadIndex := h.real.VerifHasVertexIndex()
-	res := simsched.Run(t.(simT), simsched.Config{Src: sched, Sticky: src.Intn(4)}, func() {
+	res := simsched.Run(t.(simT), simsched.Config{Src: sched, Sticky: src.Intn(4), Policy: simsched.DrawPolicy(sched)}, func() {
 		var wg sync.WaitGroup
 		for i := 0; i < k; i++ {
 			wg.Add(1)
